@@ -285,6 +285,8 @@ func families(thorough bool) []family {
 			Describe: fmt.Sprintf("one archetype over 1-2 of {local, indexed local, ref-bound local, IncMap of locals, HashMap of locals}; programs of 1-2 sections, <=3 operations each, <=%d in all; one failing attempt anywhere (await false before operation k | k-th resource operation refused | pre-commit refused)", sTotal)},
 		{Name: "ring-tcp", Draw: drawRing(ring("tcp", false), tTotal, true),
 			Describe: fmt.Sprintf("three archetypes A->B->C->A linked by TCP mailboxes on loopback; per archetype 0-2 sections of 1-2 operations from {send, relay, receive}, <=%d operations in all; every section-level interleaving; one aborted attempt at every position", tTotal)},
+		{Name: "ring-single-output-chan", Draw: drawRing(ring("single-output-chan", false), 4, false), FaultMaxOps: -1,
+			Describe: "three archetypes A->B->C->A linked by SingleOutputChan/InputChan pairs (the value is on the Go channel as soon as it is written, so no attempt is made to fail: a section that sent cannot be rolled back); per archetype 0-2 sections of 1-2 operations from {send, receive}, <=4 operations in all; every section-level interleaving"},
 		{Name: "ring-chan-shared", Draw: drawRing(ring("chan", true), mTotal, thorough), FaultMaxOps: map[bool]int{false: 3, true: 0}[thorough],
 			Describe: fmt.Sprintf("three archetypes A->B->C->A linked by OutputChan/InputChan pairs plus one LocalShared variable used by all; per archetype 0-2 sections of 1-2 operations from {send, relay the value just read, receive, read x, write x}, <=%d operations in all; (relay only in the thorough tier); programs identical up to rotation of the ring are run once; every section-level interleaving; one aborted attempt (await false) at every position (quick: in the systems of <=3 operations; the 4-operation systems run fault-free)", mTotal)},
 		{Name: "single-raw", Draw: drawSingle(sTotal, rawConfigs()...),
@@ -300,10 +302,11 @@ func families(thorough bool) []family {
 }
 
 type replay struct {
-	Family  string `json:"family"`
-	Choices []int  `json:"choices"`
-	Tier    string `json:"tier"`
-	Case    string `json:"case,omitempty"`
+	Proc    *procCase `json:"proc,omitempty"`
+	Family  string    `json:"family"`
+	Choices []int     `json:"choices"`
+	Tier    string    `json:"tier"`
+	Case    string    `json:"case,omitempty"`
 }
 
 type envDiscard struct{ what string }
@@ -488,6 +491,15 @@ func child(env hres.Env) *hres.Result {
 		if err := json.Unmarshal(env.Replay, &rp); err != nil {
 			env.T.Fatal(err)
 		}
+		if rp.Family == "procedures" && rp.Proc != nil {
+			_, fl := runProcCase(*rp.Proc, 0)
+			cleanTraceFiles(&wenv{w: 0})
+			res.Coverage = map[string]any{"evaluations": 1, "distinct_nontrivial": 0, "rule": "replay", "samples": []any{rp.Proc}}
+			if fl != nil {
+				res.Violations = append(res.Violations, hres.Viol{Key: fl.key, What: fl.what, Replay: rp})
+			}
+			return res
+		}
 		for _, f := range families(rp.Tier == "thorough") {
 			if f.Name != rp.Family {
 				continue
@@ -508,6 +520,17 @@ func child(env hres.Env) *hres.Result {
 	per := map[string]any{}
 	seen := map[string]bool{}
 	var divergences int64
+	procCov := map[string]any{}
+	if only := os.Getenv("VERIF_C18_FAMILY"); only == "" || strings.Contains(","+only+",", ",procedures,") {
+		penv := env
+		if env.Thorough() {
+			penv.Deadline = time.Now().Add(time.Until(env.Deadline) / 8)
+		}
+		runProcedures(penv, res, procCov)
+		if pc, ok := procCov["procedures"].(map[string]any); ok {
+			evals += int64(pc["executions"].(int))
+		}
+	}
 	for fi, f := range fams {
 		if only := os.Getenv("VERIF_C18_FAMILY"); only != "" && !strings.Contains(","+only+",", ","+f.Name+",") {
 			continue
@@ -548,6 +571,7 @@ func child(env hres.Env) *hres.Result {
 		"families":                          per,
 		"exhaustive":                        exhaustive,
 		"divergences":                       int(divergences),
+		"procedures":                        procCov["procedures"],
 		"events_judged":                     tot.events,
 		"aborted_attempts_judged":           tot.aborted,
 		"logged_reads_judged":               tot.reads,
